@@ -218,6 +218,10 @@ impl<'a> Evaluator<'a> {
             ast::Expr::BinOp(a, op, b) => {
                 let a_value = self._const_eval(a)?;
                 let b_value = self._const_eval(b)?;
+                if op.const_eval_is_undefined(&a_value, &b_value) {
+                    let diag = crate::passes::const_simplify::const_division_by_zero_error(expr.span);
+                    return Err(self.emitter.emit(diag));
+                }
                 return Ok(op.const_eval(a_value, b_value));
             },
 
